@@ -21,6 +21,13 @@ func init() {
 	type mutexState struct {
 		locked  bool
 		readers int
+		// RWMutex, as the Go runtime does it: a writer first announces itself (wmu: it holds the
+		// internal writer mutex) and then waits for the readers to leave; from the announcement
+		// until its Unlock NEW readers park (rwait), and that Unlock admits every reader parked
+		// at that moment (gen counts Unlocks) before a later writer can get in.
+		wmu   bool
+		rwait int
+		gen   int
 	}
 	mstate := func(in *Interp, p value) *mutexState {
 		ptr := p.(*value)
@@ -61,7 +68,9 @@ func init() {
 	reg("(*sync.RWMutex).Lock", func(in *Interp, fr *frame, a []value) value {
 		m := mstate(in, a[0])
 		in.yield()
-		in.block("rwmutex-w", func() bool { return !m.locked && m.readers == 0 })
+		in.block("rwmutex-w", func() bool { return !m.wmu })
+		m.wmu = true // pending writer: new readers park from here on
+		in.block("rwmutex-w", func() bool { return m.readers == 0 })
 		m.locked = true
 		return nil
 	})
@@ -71,12 +80,21 @@ func init() {
 			panic(pathEnd{"panic", "fatal error: sync: Unlock of unlocked RWMutex at " + in.pos()})
 		}
 		m.locked = false
+		m.wmu = false
+		m.readers += m.rwait // the parked readers hold their read locks from now on
+		m.rwait = 0
+		m.gen++
 		return nil
 	})
 	reg("(*sync.RWMutex).RLock", func(in *Interp, fr *frame, a []value) value {
 		m := mstate(in, a[0])
 		in.yield()
-		in.block("rwmutex-r", func() bool { return !m.locked })
+		if m.wmu {
+			m.rwait++
+			g := m.gen
+			in.block("rwmutex-r", func() bool { return m.gen > g })
+			return nil
+		}
 		m.readers++
 		return nil
 	})
@@ -90,15 +108,16 @@ func init() {
 	})
 	reg("(*sync.RWMutex).TryLock", func(in *Interp, fr *frame, a []value) value {
 		m := mstate(in, a[0])
-		if m.locked || m.readers > 0 {
+		if m.wmu || m.readers > 0 {
 			return false
 		}
+		m.wmu = true
 		m.locked = true
 		return true
 	})
 	reg("(*sync.RWMutex).TryRLock", func(in *Interp, fr *frame, a []value) value {
 		m := mstate(in, a[0])
-		if m.locked {
+		if m.wmu {
 			return false
 		}
 		m.readers++
